@@ -747,20 +747,170 @@ fn c01_case(seed: u64, scen: u64, thorough: bool, prop: &str, want_reads: bool, 
     out
 }
 
-const C01_RULE: &str = "one scenario = a real cluster of 2..5 nodes (1-2 DCs, MemStore behind a recording wrapper) on a virtual-time runtime: 5..40 put/del/put_many/del_many through the public handle at random nodes and consistency levels, 1-2 keyspaces, 3-6 ids, clocks skewed up to +-10 min; every ConsistencyService message (direct and batch) gets an independent verdict from a seeded policy - deliver / drop / duplicate / drop the reply / hold for up to 2.5 s (= reorder); real distributor (1 s batches), in half of the scenarios the real poller; optionally a node that joins late (after deletes) and a node stopped and restarted on its storage; 35 % of the scenarios are 'sparse knowledge' ones (2-6 operations on 1-2 ids, 90 % of the messages lost, no background repair, mostly Consistency::None) in which every operation is known to its issuer only and the result rests on the order of the final exchanges. Then faults stop, held messages drain, and node i pulls from node j (repair_from = real repair_members with a fresh tracker) for EVERY ordered pair in random order, failpoints choosing which half of each exchange is applied first; an exchange that did not complete is retried, else the scenario is inconclusive. Oracle: LWW over all storage writes recorded anywhere (the operations that took effect); every node's get / get_many / iter_metadata must equal it (ids, bytes, stamps). Preconditions re-checked: stamps within 3600 s, one stamp never names a put and a delete. Non-trivial = at least one message verdict was not 'deliver'; distinct = distinct hash of (operations, per-message verdict trace).";
+const C01_RULE: &str = "one scenario = a real cluster of 2..5 nodes (1-2 DCs, MemStore behind a recording wrapper) on a virtual-time runtime: 5..40 put/del/put_many/del_many through the public handle at random nodes and consistency levels, 1-2 keyspaces, 3-6 ids, clocks skewed up to +-10 min; every ConsistencyService message (direct and batch) gets an independent verdict from a seeded policy - deliver / drop / duplicate / drop the reply / hold for up to 2.5 s (= reorder); real distributor (1 s batches), in half of the scenarios the real poller; optionally a node that joins late (after deletes) and a node stopped and restarted on its storage; 35 % of the scenarios are 'sparse knowledge' ones (2-6 operations on 1-2 ids, 90 % of the messages lost, no background repair, mostly Consistency::None) in which every operation is known to its issuer only and the result rests on the order of the final exchanges. Then faults stop, held messages drain, and node i pulls from node j (repair_from = real repair_members with a fresh tracker) for EVERY ordered pair in random order, failpoints choosing which half of each exchange is applied first; an exchange that did not complete is retried, else the scenario is inconclusive. Oracle: LWW over all storage writes recorded anywhere (the operations that took effect); every node's get / get_many / iter_metadata must equal it (ids, bytes, stamps). Preconditions re-checked: stamps within 3600 s, one stamp never names a put and a delete. Second kind of scenario (40 000 quick): operations RACING a repair exchange - direct replication to the polling node lost, the polled node's storage slow (each write takes 0/2/5/20 virtual ms); when the state request is about to be delivered the monitor wakes a client and holds the request up to that long; the client issues one operation at once (the actor is busy, the state request queues behind it) and the scenario's last operation (put new id / overwrite / delete) a little later (queues behind the state request); after 4 repair intervals the poller's own cycles must have converged every node to the LWW documents. Non-trivial = at least one message verdict was not 'deliver'; distinct = distinct hash of (operations, per-message verdict trace).";
+
+/// Operations racing a repair exchange. Two or three nodes with the real poller; direct replication
+/// to the polling node B is lost; the polled node A has SLOW storage (every write takes d virtual ms,
+/// never fails), so its keyspace actor is busy for a while with each write. When B's GetState request
+/// for the keyspace is about to be delivered (an existing suspension point: the transport), the monitor
+/// wakes a client and holds the request for h <= d ms. The client issues one operation at once (the actor
+/// becomes busy, the state request queues behind it) and a second one g <= 2d ms later (queues behind the
+/// state request): the LAST operations of the scenario. Nothing else is disturbed. After 4 repair
+/// intervals the poller's own cycles must have brought everything to every node (bounded progress),
+/// whatever the interleaving with the exchange was.
+async fn c01_race_scenario(seed: u64, scen: u64) -> CaseOut {
+    let mut out = CaseOut::default();
+    let mut rng = rng_for(seed, 0xC01_4ACE, scen);
+    install_wall(vec![0; 8]);
+    let n = if rng.gen_bool(0.7) { 2usize } else { 3 };
+    let interval = Duration::from_millis(*[200u64, 1_000, 5_000].choose(&mut rng).unwrap());
+    let chaos = new_chaos(rng.gen(), [100, 0, 0, 0, 0], 1);
+    let mut cluster = Cluster { nodes: Vec::new(), chaos: chaos.clone(), repair_interval: interval };
+    for i in 0..n {
+        let id = (i + 1) as u8;
+        let node = start_node(id, scen_addr(41, scen, id), "dc-0", Arc::new(MemStore::default()), Ctl::new(id), interval, true, None).await;
+        cluster.nodes.push(node);
+    }
+    let (addr_a, addr_b) = (cluster.nodes[0].addr, cluster.nodes[1].addr);
+    let d = *[0i64, 2, 5, 20].choose(&mut rng).unwrap();
+    cluster.nodes[0].ctl.slow_ms.store(d, std::sync::atomic::Ordering::SeqCst);
+    // what the second racing operation is: 0 = put a new id, 1 = overwrite the first document, 2 = delete it
+    let kind = rng.gen_range(0..3u8);
+    let hold_ms = rng.gen_range(0..=d.max(1)) as u64;
+    let gap_ms = rng.gen_range(0..=(2 * d).max(1)) as u64;
+    let (turns_transport, turns_client) = (rng.gen_range(0..6u32), rng.gen_range(0..6u32));
+    let wake = Arc::new(tokio::sync::Notify::new());
+    let seen_getstate = Arc::new(std::sync::atomic::AtomicU32::new(0));
+    for nd in &cluster.nodes {
+        let (wake, seen) = (wake.clone(), seen_getstate.clone());
+        rv::set_policy(
+            nd.addr,
+            Some(Arc::new(move |m: rv::MsgInfo| {
+                let (wake, seen) = (wake.clone(), seen.clone());
+                Box::pin(async move {
+                    // direct replication never reaches B: repair has to carry everything
+                    if m.uri.contains("ConsistencyService") && m.to == addr_b {
+                        return rv::Verdict::Drop;
+                    }
+                    if m.to == addr_a && m.uri.contains("GetState") && seen.fetch_add(1, std::sync::atomic::Ordering::SeqCst) == 0 {
+                        wake.notify_one();
+                        if hold_ms > 0 {
+                            tokio::time::sleep(Duration::from_millis(hold_ms)).await;
+                        }
+                        for _ in 0..turns_transport {
+                            tokio::task::yield_now().await;
+                        }
+                    }
+                    rv::Verdict::Deliver
+                })
+            })),
+        );
+    }
+    cluster.publish_membership();
+    tokio::time::sleep(Duration::from_millis(50)).await;
+    let ks = "race";
+    let ha = cluster.nodes[0].handle();
+    // first operation: makes A's keyspace differ from B's, so that B's poller starts an exchange
+    let first = ha.put(ks, 1, b"first".to_vec(), Consistency::None).await;
+    if first.is_err() {
+        out.inconclusive = Some(format!("setup put failed: {first:?}"));
+        cluster.shutdown();
+        return out;
+    }
+    let racer = {
+        let (h, wake) = (ha.clone(), wake.clone());
+        tokio::spawn(async move {
+            wake.notified().await;
+            let h1 = h.clone();
+            let op1 = tokio::spawn(async move { h1.put(ks, 10, b"keeps-the-actor-busy".to_vec(), Consistency::None).await.map(|_| ()) });
+            if gap_ms > 0 {
+                tokio::time::sleep(Duration::from_millis(gap_ms)).await;
+            }
+            for _ in 0..turns_client {
+                tokio::task::yield_now().await;
+            }
+            let r2 = match kind {
+                0 => h.put(ks, 2, b"raced".to_vec(), Consistency::None).await.map(|_| ()),
+                1 => h.put(ks, 1, b"raced-overwrite".to_vec(), Consistency::None).await.map(|_| ()),
+                _ => h.del(ks, 1, Consistency::None).await.map(|_| ()),
+            };
+            let r1 = op1.await;
+            r2.is_ok() && matches!(r1, Ok(Ok(())))
+        })
+    };
+    let raced = tokio::time::timeout(interval * 6 + Duration::from_secs(5), racer).await;
+    match raced {
+        Ok(Ok(true)) => {},
+        other => {
+            out.inconclusive = Some(format!("the racing operations did not complete: {other:?}"));
+            cluster.shutdown();
+            return out;
+        },
+    }
+    out.count("operations_racing_an_exchange", 2);
+    // bounded progress: four more repair intervals, nothing else happens
+    tokio::time::sleep(interval * 4 + Duration::from_secs(2)).await;
+    let writes = cluster.all_writes();
+    let mut model: BTreeMap<Key, (HLCTimestamp, bool)> = BTreeMap::new();
+    for w in writes.iter().filter(|w| w.keyspace == ks) {
+        let e = model.entry(w.id).or_insert((w.ts, w.data.is_none()));
+        if w.ts > e.0 {
+            *e = (w.ts, w.data.is_none());
+        }
+    }
+    let expect: BTreeSet<(Key, HLCTimestamp)> = model.iter().filter(|(_, v)| !v.1).map(|(k, v)| (*k, v.0)).collect();
+    out.nontrivial = Some(hash_of(&("race", n, kind, d, hold_ms, gap_ms, turns_transport, turns_client, interval.as_millis() as u64)));
+    for nd in &cluster.nodes {
+        let got: BTreeSet<(Key, HLCTimestamp)> = match store_listing(nd.inner.as_ref(), ks).await {
+            Ok((live, _)) => live.into_iter().collect(),
+            Err(e) => {
+                out.inconclusive = Some(e);
+                break;
+            },
+        };
+        if got != expect {
+            let show = |m: &BTreeSet<(Key, HLCTimestamp)>| json!(m.iter().map(|e| json!([e.0, ts_json(e.1)])).collect::<Vec<_>>());
+            out.violate(
+                "C01:background-repair-cycles-did-not-converge:operation-raced-a-repair-exchange",
+                json!({"node": nd.id, "live_documents": show(&got), "last_writer_wins": show(&expect), "second_racing_operation": (["put new id", "overwrite", "delete"][kind as usize]),
+                    "storage_write_takes_ms": d, "state_request_held_ms": hold_ms, "second_operation_after_ms": gap_ms,
+                    "turns_before_delivery": turns_transport, "turns_before_the_operation": turns_client, "repair_interval_ms": interval.as_millis() as u64,
+                    "getstate_requests_seen": seen_getstate.load(std::sync::atomic::Ordering::SeqCst), "waited": "4 repair intervals + 2 s"}),
+            );
+            out.replay = Some(json!({"mode": "race", "seed": seed, "scenario": scen}));
+            break;
+        }
+    }
+    cluster.shutdown();
+    out
+}
 
 pub fn c01(args: &Args) {
     let mut report = Report::new(args, "E2-cluster", C01_RULE);
     let thorough = args.tier == Tier::Thorough;
     if let Some(path) = &args.replay {
         let r = read_replay(path);
-        report.absorb(c01_case(r["seed"].as_u64().unwrap(), r["scenario"].as_u64().unwrap(), true, "C01", true, false));
+        if r["mode"] == "race" {
+            report.absorb(block_on_paused(c01_race_scenario(r["seed"].as_u64().unwrap(), r["scenario"].as_u64().unwrap())));
+        } else {
+            report.absorb(c01_case(r["seed"].as_u64().unwrap(), r["scenario"].as_u64().unwrap(), true, "C01", true, false));
+        }
         report.finish(args);
         return;
     }
     let seed = args.seed;
     let n = args.pick(40_000, 3_000_000);
-    run_cases(&mut report, n, args.threads, Duration::from_secs(args.pick(150, 3000)), |i| c01_case(seed, i, thorough, "C01", true, false));
+    let part = args.opt_str("part");
+    if part != Some("race") {
+        run_cases(&mut report, n, args.threads, Duration::from_secs(args.pick(150, 3000)), |i| c01_case(seed, i, thorough, "C01", true, false));
+    }
+    let n_race = args.pick(40_000, 2_000_000);
+    run_cases(&mut report, n_race, args.threads, Duration::from_secs(args.pick(60, 900)), |i| block_on_paused(c01_race_scenario(seed, i)));
+    report.floor("operations_racing_an_exchange", 1_000);
+    if part == Some("race") {
+        report.finish(args);
+        return;
+    }
     report.floor("scenarios", 1_000);
     report.floor("repair_exchanges_completed", 5_000);
     report.floor("messages_dropped", 1_000);
